@@ -31,7 +31,7 @@ COMPONENTS = {'real': ['kawin.GenericModel.save/load', 'kawin.precipitation KWNE
 
 def plan(tier):
     if tier == 'quick':
-        return dict(runs=300, batch=3, hard_timeout=900, soft_timeout=400)
+        return dict(runs=480, batch=3, hard_timeout=900, soft_timeout=400)
     return dict(runs=10000, batch=8, hard_timeout=2400, soft_timeout=900)
 
 
